@@ -57,6 +57,12 @@ def grid(tier):
             order.insert(apos, "A")
             k += 1
             yield {"order": order, "spell": "random", "seed": k, "engine": "numpy" if k % 2 else "normal", "steer": None, "extra": 0}
+    for si in (0, 4):                 # NULL / null items (value 55.5, which the data hold) in ~P, ~C or a custom section of a file whose ~Well states no NULL
+        for where in ("P", "C", "X"):
+            for order in (["W", "C", "P", "O", "X", "A"], ["P", "X", "A", "W", "C", "O"], ["C", "X", "P", "W", "O", "A"]):
+                for engine in ("numpy", "normal"):
+                    k += 1
+                    yield {"order": order, "spell": {}, "seed": 7 * k + 1, "engine": engine, "steer": [si, where], "extra": 0, "well_without_null": True}
     for perm in (["W", "C", "P", "O", "X"], ["C", "W", "X", "O", "P"], ["P", "X", "O", "C", "W"]):
         for apos in range(6):
             for engine in ("numpy", "normal"):
@@ -136,6 +142,8 @@ def build(case):
     for kind in order:
         if kind == "W":
             items = [["STRT", "M", "1.0", t()], ["STOP", "M", "2.0", t()], ["STEP", "M", "0.5", t()], ["NULL", "", "-999.25", t()]]
+            if case.get("well_without_null"):
+                items.pop()       # a ~Well section that states no NULL: then nothing is a missing-value marker, whatever other sections hold
             items += [["WX%d" % i, "u", "wv%d" % i, t()] for i in range(rng.randint(0, 5))]
             secs.append({"kind": "W", "title": title("W"), "items": items})
         elif kind == "C":
@@ -284,7 +292,9 @@ def run_case(case, ctx):
         ctx.case_done([kinds_in_order, "empty-data", case.get("steer"), case["engine"]], nontrivial=len(secs) >= 4)
         return
     r, c = len(rows), len(rows[0])
-    has_null = any(s["kind"] == "W" for s in secs)
+    has_null = any(s["kind"] == "W" for s in secs) and not case.get("well_without_null")
+    if case.get("well_without_null"):
+        ctx.count("layouts_whose_well_section_states_no_null")
     curves = list(las.curves)
     if len(curves) != max(c, ncurves_declared):
         V("data-curve-count:%s" % cls, "%d curves for %d columns / %d declared" % (len(curves), c, ncurves_declared), detail)
